@@ -1014,6 +1014,9 @@ class BuiltinsMixin:
 
     m_tuple_index = lambda self, t, v: self.m_list_index(SList(list(t)), v)  # noqa: E731
 
+    def m_list_reverse(self, lst):
+        lst.items.reverse()
+
     def m_list_copy(self, lst):
         return SList(lst.items)
 
